@@ -196,6 +196,45 @@ def sc_concurrent(name, expr, cer_values):
                       describe=f"{len(cers)} concurrent evaluations of '{expr}', each with its own context-local data (values and hint texts differ)")
 
 
+def sc_wide_rc(name, nkeys):
+    """one gather over more awaitables than any batching limit in sight (32, 64): key 1 is the only unfulfilled one and decides"""
+    from ahbicht.expressions.requirement_constraint_expression_evaluation import requirement_constraint_evaluation
+    expr = "[1] U (" + " O ".join(f"[{k}]" for k in range(2, nkeys + 1)) + ")"
+    rc = {k: "F" for k in range(2, nkeys + 1)}
+    rc[1] = "U"
+    ev = GT.make_evaluators(rc_values=rc)
+    return A.Scenario(name, PL.seq(), lambda: requirement_constraint_evaluation(expr), ev, project=proj_rc, expected=(False, True, None, None),
+                      describe=f"requirement_constraint_evaluation of '[1] U ([2] O ... O [{nkeys}])' with only [1] unfulfilled: {nkeys} keys in one gather")
+
+
+def sc_wide_validation(name, nseg):
+    """a segment group with more children than any batching limit in sight, validated under random completion orders: every node once, in document order"""
+    from ahbicht.validation.validation import validate_deep_anwendungshandbuch
+    from maus.models.anwendungshandbuch import AhbMetaInformation, DeepAnwendungshandbuch
+    from maus.models.edifact_components import DataElementFreeText, Segment, SegmentGroup
+    rc = {k: ("U" if k % 7 == 3 else "F") for k in range(1, nseg + 1)}
+    segs = [Segment(discriminator=f"s{k}", ahb_expression=f"Muss [{k}]",
+                    data_elements=[DataElementFreeText(discriminator=f"e{k}", ahb_expression="Muss", entered_input="x", data_element_id="1234")])
+            for k in range(1, nseg + 1)]
+    sub = SegmentGroup(discriminator="g2", ahb_expression="Kann [1]", segments=[Segment(discriminator="s0", ahb_expression="Muss", data_elements=[])], segment_groups=[])
+    deep = DeepAnwendungshandbuch(meta=AhbMetaInformation(pruefidentifikator="11042"),
+                                  lines=[SegmentGroup(discriminator="g1", ahb_expression="Muss", segments=segs, segment_groups=[sub])])
+    ev = GT.make_evaluators(rc_values=rc)
+    expected = [("g1", "IS_REQUIRED"), ("g2", "IS_OPTIONAL"), ("s0", "IS_OPTIONAL")]
+    for k in range(1, nseg + 1):
+        if rc[k] == "F":
+            expected += [(f"s{k}", "IS_REQUIRED"), (f"e{k}", "IS_REQUIRED_AND_FILLED")]
+        else:
+            expected += [(f"s{k}", "IS_FORBIDDEN")]
+    proj = lambda rs: tuple((r.discriminator, str(r.validation_result.requirement_validation)) for r in rs)
+    return A.Scenario(name, PL.seq(), lambda: validate_deep_anwendungshandbuch(copy.deepcopy(deep)), ev, project=proj, expected=tuple(expected),
+                      describe=f"validate_deep_anwendungshandbuch on a group with a sub-group and {nseg} segments (every seventh forbidden)")
+
+
+def wide_scenarios(thorough):
+    return [sc_wide_rc("rc40", 40), sc_wide_validation("wide40", 40)] + ([sc_wide_rc("rc33", 33), sc_wide_validation("wide34", 34)] if thorough else [])
+
+
 def scenarios(thorough):
     s = [
         sc_requirement("rc3", "[1] O [2] U [3]", {1: "F", 2: "U", 3: "U"}),
@@ -243,6 +282,8 @@ def run():
     ahb.configure()
     for i, sc in enumerate(scenarios(thorough)):
         A.check_scenario(sc, res, work, rng, max_all=(3000 if thorough else 300), extra_random=(300 if thorough else 25), sensitivity=({"ahb2": [("completion_order", "copy", "Assoc")], "validfc": [("positional", "shared", "OwnContext")]}.get(sc.name)))
+    for sc in wide_scenarios(thorough):
+        A.check_large_scenario(sc, res, rng, n=(400 if thorough else 120))
     bad = [s for s in res.coverage.get("sensitivity", []) if s["violated"] != s["expected_to_violate"]]
     if bad:
         from common import MachineryError
